@@ -59,6 +59,7 @@ type World struct {
 	tableVals map[string]int64 // resolved constant names used in tables
 	loadSecs float64
 	reassigned map[string]bool
+	callers  map[*ssa.Function]bool
 }
 
 func loadWorld(repo string, patterns []string) (*World, error) {
